@@ -63,15 +63,30 @@ Fixpoint lists_eqb (a b : list (list N)) : bool :=
 
 (* expected characters after phase I: a collapsible space, a preserved line feed
    (forced break), or a character that must appear as it is *)
-Inductive ekind := ESpace | EBreak | EChar.
+Inductive ekind := ESpace | EBreak | EChar | EAtom.
 
 Definition classify (m : wsmode) (c : N) : ekind :=
   if N.eqb c LF then (if new_line_collapse m then EChar else EBreak)
   else if N.eqb c SP && space_collapse m then ESpace
   else EChar.
 
+(* EAtom: an atomic inline (inline-block) or a block inside the inline box.  It carries no text of
+   the paragraph and is not visible in the observed lines, but it occupies a place on a line: a
+   collapsible space that follows it is not at the start of a line. *)
+Fixpoint stream (b : inl) : list (N * ekind) :=
+  match b with
+  | IText m t => map (fun c => (c, classify m c)) t
+  | IBox ks => flat_map stream ks
+  | IAtom => [(65532%N, EAtom)]
+  end.
+
+(* the expected characters: without the atoms (every verdict but the second chance below is
+   computed on this stream, as before atoms were introduced) / with them *)
 Definition expected (src : inl) : list (N * ekind) :=
   flat_map (fun mt => map (fun c => (c, classify (fst mt) c)) (snd mt)) (texts (build src)).
+Definition expected_atoms (src : inl) : list (N * ekind) := stream (build src).
+
+Definition expected_text (src : inl) : list N := map fst (expected src).
 
 (* observed stream: characters and line boundaries *)
 Inductive otok := OC (c : N) | ONL.
@@ -103,6 +118,9 @@ Section Match.
 (* relaxations used only to name a deviation precisely (codes 8 / 9):
    rs: a collapsible space may be dropped inside a line; rb: a preserved line feed may fail to break the line *)
 Variables rs rb : bool.
+(* ra: an atom may be read as starting the next line when a collapsible space that ends the
+   paragraph (or precedes a forced break) follows it -- used by check_para for the verdict 0 only *)
+Variable ra : bool.
 Fixpoint match_para (fuel : nat) (at_edge : bool) (e : list (N * ekind)) (o : list otok) : bool :=
   match fuel with
   | 0 => false
@@ -111,6 +129,17 @@ Fixpoint match_para (fuel : nat) (at_edge : bool) (e : list (N * ekind)) (o : li
       | [], [] => true
       | [], ONL :: o' => match_para f true [] o'
       | [], OC _ :: _ => false
+      | (_, EAtom) :: e', _ =>
+          (* the atom is on the current line (nothing to observe); or, when all that follows it
+             up to the end / a forced break is one collapsible space, it starts the next line
+             and the space is observed after it, alone on that line: the space is there once,
+             at the end of a line, but not at its start (the atom is) *)
+          match_para f at_edge e' o ||
+          (ra &&
+           match e', o with
+           | (_, ESpace) :: ([] | (_, EBreak) :: _), ONL :: o' => match_para f false e' o'
+           | _, _ => false
+           end)
       | (c, EChar) :: e', OC c' :: o' => N.eqb c c' && match_para f false e' o'
       | (c, EChar) :: _, ONL :: o' => match_para f true e o'
       | (c, EChar) :: _, [] => false
@@ -155,9 +184,10 @@ Definition check_para (src : inl) (lines : list (list N)) : N :=
   let e := expected src in
   let o := observed lines in
   let fuel := S (length e + length o) in
-  if match_para false false fuel true e o then 0%N
-  else if match_para true false fuel true e o then 8%N
-  else if match_para false true fuel true e o then 9%N
+  if match_para false false false fuel true e o then 0%N
+  else if match_para false false true (fuel + length (expected_atoms src)) true (expected_atoms src) o then 0%N
+  else if match_para true false false fuel true e o then 8%N
+  else if match_para false true false fuel true e o then 9%N
   else 3%N.
 
 (* ---------------------------------------------------------------- order *)
@@ -231,7 +261,7 @@ Definition check (c : case) : N :=
 Definition model_out (c : case) : list (list N) :=
   match c with
   | CWs f src _ _ => let '(b, g) := pw f src in map snd (texts b) ++ [[if g then 1 else 0]]%N
-  | CPara src _ => [map fst (expected src)]
+  | CPara src _ => [expected_text src]
   | COrder n _ | CUnits n _ => [[n]]
   | CDraw page _ => expected_draws page
   | CEq r o _ => [[if ms_equals r o then 1 else 0; if ms_eqb r o then 1 else 0]]%N
